@@ -43,6 +43,7 @@ type Engine struct {
 	trace     bool
 	fpMode    string
 	initDone  map[*ssa.Package]bool
+	initPkgs  map[string]bool
 }
 
 type Frame struct {
@@ -83,7 +84,7 @@ func NewEngine(prog *ssa.Program, pkg *ssa.Package) *Engine {
 	return &Engine{prog: prog, pkg: pkg, stubs: map[string]string{}, noops: map[string]bool{},
 		globals: map[*ssa.Global]*Obj{}, funcsSeen: map[*ssa.Function]int{},
 		pdom: map[*ssa.Function]map[*ssa.BasicBlock]*ssa.BasicBlock{}, unwind: 64,
-		nondets: map[string]Sort{}, initDone: map[*ssa.Package]bool{}}
+		nondets: map[string]Sort{}, initDone: map[*ssa.Package]bool{}, initPkgs: map[string]bool{}}
 }
 
 func (e *Engine) addQuery(kind, label string, f *Term, instr ssa.Instruction) {
@@ -335,6 +336,13 @@ func (e *Engine) elemPtr(alts []ObjAlt, idx *Term, esz int) *PtrV {
 
 func (e *Engine) callFunction(st *State, fn *ssa.Function, args []Value, bindings []Value, caller *Frame, site ssa.Instruction) (*State, Value) {
 	name := fn.String()
+	if fn.Name() == "init" && fn.Pkg != nil && fn.Signature.Recv() == nil && fn.Parent() == nil {
+		// package initialisers run only for packages listed by the job
+		if !e.initPkgs[fn.Pkg.Pkg.Path()] || e.initDone[fn.Pkg] {
+			return st, nil
+		}
+		e.initDone[fn.Pkg] = true
+	}
 	if e.noops[name] {
 		return st, zeroResults(fn.Signature)
 	}
@@ -406,6 +414,9 @@ func (e *Engine) allowed(fn *ssa.Function) bool {
 		return true
 	}
 	p := fn.Pkg.Pkg.Path()
+	if fn.Name() == "init" && e.initPkgs[p] {
+		return true
+	}
 	if allowPkgs[p] || defaultAllow[p] {
 		return true
 	}
@@ -515,6 +526,9 @@ func (e *Engine) execRegion(fr *Frame, st *State, env Env, b *ssa.BasicBlock, pr
 			}
 			fr.visits[b]++
 			gT, gF := And(st.g, c), And(st.g, Not(c))
+			if e.trace {
+				fmt.Printf("%*sif@%s visits=%d\n", e.depth, "", e.prog.Fset.Position(t.Pos()), fr.visits[b])
+			}
 			if fr.visits[b] > 1 && e.feas != nil {
 				// loop re-entry on a symbolic condition: prune infeasible arms
 				if !gT.IsFalse() {
@@ -679,15 +693,25 @@ func (e *Engine) step(fr *Frame, st *State, env Env, in ssa.Instruction) *State 
 		}
 		env[x] = fv
 	case *ssa.MakeMap:
-		objCounter++
-		env[x] = &MapV{m: &MapObj{id: objCounter, vals: map[string]Value{}}}
+		env[x] = &MapV{obj: e.newMapObj(st)}
 	case *ssa.MapUpdate:
 		m := e.eval(st, env, x.Map).(*MapV)
-		k := e.mapKey(e.eval(st, env, x.Key))
-		if _, ok := m.m.vals[k]; !ok {
-			m.m.keys = append(m.m.keys, k)
+		if m.obj == nil {
+			e.addQuery("panic", "assignment to entry in nil map", st.g, x)
+			return nil
 		}
-		m.m.vals[k] = e.eval(st, env, x.Value)
+		k := e.mapKey(e.eval(st, env, x.Key))
+		old := st.read(m.obj, 0).(*MapContent)
+		nc := &MapContent{ents: map[string]mapEnt{}}
+		nc.keys = append(nc.keys, old.keys...)
+		for kk, vv := range old.ents {
+			nc.ents[kk] = vv
+		}
+		if _, ok := nc.ents[k]; !ok {
+			nc.keys = append(nc.keys, k)
+		}
+		nc.ents[k] = mapEnt{TTrue, e.eval(st, env, x.Value)}
+		st.write(m.obj, 0, nc)
 	case *ssa.Lookup:
 		env[x] = e.lookup(st, env, x)
 	case *ssa.Call:
@@ -732,6 +756,14 @@ func (e *Engine) step(fr *Frame, st *State, env Env, in ssa.Instruction) *State 
 	return st
 }
 
+func (e *Engine) newMapObj(st *State) *Obj {
+	objCounter++
+	o := &Obj{id: objCounter, label: "map", n: 1, esz: 1}
+	st.heap[o.id] = &ObjData{cells: []Value{&MapContent{ents: map[string]mapEnt{}}}, owner: st}
+	st.objs[o.id] = o
+	return o
+}
+
 func (e *Engine) mapKey(v Value) string {
 	s, ok := v.(*StrV)
 	if !ok || !s.conc {
@@ -745,16 +777,16 @@ func (e *Engine) lookup(st *State, env Env, x *ssa.Lookup) Value {
 	if m, ok := xv.(*MapV); ok {
 		k := e.mapKey(e.eval(st, env, x.Index))
 		elemT := x.X.Type().Underlying().(*types.Map).Elem()
-		var v Value
-		found := false
-		if m.m != nil {
-			v, found = m.m.vals[k]
-		}
-		if !found {
-			v = zeroValue(elemT)
+		v := zeroValue(elemT)
+		found := TFalse
+		if m.obj != nil {
+			if en, ok := st.read(m.obj, 0).(*MapContent).ents[k]; ok {
+				found = en.present
+				v = IteV(en.present, en.v, v)
+			}
 		}
 		if x.CommaOk {
-			return &TupleV{vs: []Value{v, BoolConst(found)}}
+			return &TupleV{vs: []Value{v, found}}
 		}
 		return v
 	}
@@ -1010,7 +1042,7 @@ func (e *Engine) binop(st *State, op token.Token, xt types.Type, a, b Value, yt 
 		return Not(r)
 	case *MapV:
 		y := b.(*MapV)
-		r := BoolConst(x.m == y.m)
+		r := BoolConst(x.obj == y.obj)
 		if op == token.EQL {
 			return r
 		}
@@ -1541,10 +1573,15 @@ func (e *Engine) builtin(st *State, name string, args []Value, site ssa.Instruct
 				return st, BVConst(int64(len(x.s)), 64)
 			}
 		case *MapV:
-			if x.m == nil {
+			if x.obj == nil {
 				return st, BVConst(0, 64)
 			}
-			return st, BVConst(int64(len(x.m.keys)), 64)
+			n := BVConst(0, 64)
+			mc := st.read(x.obj, 0).(*MapContent)
+			for _, k := range mc.keys {
+				n = Add(n, Ite(mc.ents[k].present, BVConst(1, 64), BVConst(0, 64)))
+			}
+			return st, n
 		case *ArrayV:
 			return st, BVConst(int64(len(x.elems)), 64)
 		}
